@@ -60,7 +60,12 @@ Pool == <<
   [name |-> "macrobranch", clocked |-> FALSE, loads |-> FALSE,
    src |-> "{% if x.n == 2 %}{% macro m a, b='B' %}1:{{ a }}{{ b }}{% endmacro %}{% else %}{% macro m b, a='A' %}2:{{ a }}{{ b }}{% endmacro %}{% endif %}{% call m x.a %}"],
   [name |-> "partialdate", clocked |-> TRUE, loads |-> FALSE,
-   src |-> "{{ '10:30' | date: '%Y-%m-%d %H:%M' }}|{{ 'March 5' | date: '%Y-%m-%d' }}|{{ x.a }}"] >>
+   src |-> "{{ '10:30' | date: '%Y-%m-%d %H:%M' }}|{{ 'March 5' | date: '%Y-%m-%d' }}|{{ x.a }}"],
+  \* several branches over one subject with a suspension inside each branch (a value parked on the shared tree
+  \* between two `when`s is overwritten by a concurrent render); `gv` is bound by the globals a caller hands to
+  \* from_string / get_template - part of the data set d, so a later caller's globals must win over an earlier one's
+  [name |-> "branches", clocked |-> FALSE, loads |-> FALSE,
+   src |-> "{% case x.n %}{% when 2 %}two {{ x.a }}{% when 5, 7 %}five {{ x.b }}{% else %}other {{ x.a }}{% endcase %}|{% if x.n == 2 %}{{ x.a }}{% elsif x.n == 5 %}{{ x.b }}{% else %}{{ x.l | first }}{% endif %}|{% unless x.n == 5 %}{{ x.a }}{% else %}{{ x.b }}{% endunless %}|{{ gv }}"] >>
 \* two versions of every partial: an Edit step switches the loader of Environment 1 to the other one
 Partials == << [name |-> "base", src |-> "[{% block b %}base {{ x.b }}{% endblock %}|{% block c %}c{% increment n %}{% endblock %}]",
                 src2 |-> "<<{% block b %}BASE2 {{ x.a }}{% endblock %}>>"],
@@ -71,7 +76,7 @@ Partials == << [name |-> "base", src |-> "[{% block b %}base {{ x.b }}{% endbloc
 TIds == IF TSet = {} THEN DOMAIN Pool ELSE TSet
 DIds == IF DSet = {} THEN 1..2 ELSE DSet
 Calls == {"render", "render_async", "analyze", "from_string", "get_template"}
-PairIds == {t \in TIds : Pool[t].name \in {"ctxfilters", "partials", "counters", "loops", "macros", "macrorender", "renderchain"}}
+PairIds == {t \in TIds : Pool[t].name \in {"ctxfilters", "partials", "counters", "loops", "macros", "macrorender", "renderchain", "branches"}}
 
 RECURSIVE SeqsUpTo(_, _)
 SeqsUpTo(E, n) == IF n = 0 THEN {<<>>} ELSE SeqsUpTo(E, n - 1) \cup {Append(s, x) : s \in SeqsUpTo(E, n - 1), x \in E}
